@@ -101,6 +101,16 @@ theorem C19b_meaning (parseInt : Str → Except PyErr Int) (hpi : ValueErrorOnly
       = .ok (expected parseInt (srule e.tag prop) (stOf (e.entry (htmlName prop))) e.ancestors e.classNames) :=
   getProp_of_cellOK genTables parseInt hpi e prop (C19c_table e.tag prop h) hpy hst
 
+/-- "Set via HTML": for the element the parser builds for `<tag attr="text">` (attr the documented HTML name), reading
+the property gives the documented rule on that text.  (className and spellcheck store a converted form of the text;
+for them the stream compares the constructed element.) -/
+theorem C19b_constructed (parseInt : Str → Except PyErr Int) (hpi : ValueErrorOnly parseInt) (tag prop : String)
+    (h : InTable tag prop) (anc : List String) (s : Str)
+    (h1 : srule tag prop ≠ .className) (h2 : srule tag prop ≠ .boolString) :
+    getProp genTables parseInt (constructed genTables tag (htmlName prop) anc s) prop
+      = .ok (expected parseInt (srule tag prop) (.text s) anc []) :=
+  getProp_constructed genTables parseInt hpi tag prop (C19c_table tag prop h) anc s h1 h2
+
 /-- Boundaries of a clamped property (span, colSpan 1..1000; rowSpan 0..65534), symbolically. -/
 theorem C19b_clamp_below (lo hi n : Int) (h : lo ≤ hi) (hn : n < lo) : Spec.clamp lo hi n = lo := by
   unfold Spec.clamp; omega
